@@ -150,6 +150,50 @@ def kinds(r) -> set:
     return s
 
 
+def key(r) -> str:
+    """Canonical text of a recipe: union members flattened, sorted and de-duplicated, spelling ('bar') ignored."""
+    k = r["k"]
+    if k == "union":
+        return "U(" + ",".join(sorted({key(m) for m in _flat(r)})) + ")"
+    if k == "typevar":
+        return "T(" + ",".join(key(c) for c in r.get("constraints") or ()) + ";" + (key(r["bound"]) if r.get("bound") else "") + ")"
+    if k == "annotated":
+        return f"An({key(r['a'][0])};{r['m']};{r.get('m2')})"
+    return k + ("[" + ",".join(key(c) for c in r["a"]) + "]" if "a" in r else "")
+
+
+def _flat(r):
+    for m in r["a"]:
+        m = canon(m)
+        if m["k"] == "union":
+            yield from m["a"]
+        else:
+            yield m
+
+
+def canon(r):
+    """The recipe of what typing actually builds: Union[X, X] is X, nested unions are flat (so the recipe's structure
+    is the structure of the built object; the relation itself does not depend on it)."""
+    k = r["k"]
+    if k == "union":
+        seen, ms = set(), []
+        for m in _flat(r):
+            if key(m) not in seen:
+                seen.add(key(m))
+                ms.append(m)
+        return ms[0] if len(ms) == 1 else dict(r, a=ms)
+    if k == "typevar":
+        new = dict(r)
+        if r.get("constraints"):
+            new["constraints"] = [canon(c) for c in r["constraints"]]
+        if r.get("bound") is not None:
+            new["bound"] = canon(r["bound"])
+        return new
+    if "a" in r:
+        return dict(r, a=[canon(c) for c in r["a"]])
+    return r
+
+
 # ---- the reference relation (written from the property text) -----------------------------------
 def strip(r):
     """Annotated is transparent; Array[T] is a plain object ndarray that remembers its element type."""
@@ -281,6 +325,7 @@ def explain(pred) -> list[str]:
 
 def diagnose(calls) -> list[str] | None:
     """calls: [(a, b, got)].  None if every call agrees with ref; else the deviation buckets explaining all of them."""
+    calls = [(canon(a), canon(b), got) for a, b, got in calls]
     for a, b, _ in calls:
         assert devmodel(a, b, NODEV) == ref(a, b), (a, b)  # harness self-check
     if all(ref(a, b) == got for a, b, got in calls):
@@ -290,6 +335,7 @@ def diagnose(calls) -> list[str] | None:
 
 def itc(out, a, b):
     """Call the implementation on freshly built objects; None (and a failure) if it raises."""
+    a, b = canon(a), canon(b)
     try:
         return bool(is_type_compatible(build(a), build(b)))
     except Exception as e:  # noqa: BLE001
@@ -305,7 +351,7 @@ def nontrivial_pair(a, b) -> bool:
 # ---- bodies: pairs and laws ---------------------------------------------------------------------
 def body_pair(data) -> Outcome:
     out = Outcome()
-    a, b = data["a"], data["b"]
+    a, b = canon(data["a"]), canon(data["b"])
     want = ref(a, b)
     assert devmodel(a, b, NODEV) == want, (a, b)  # harness self-check: the bucket-naming model extends ref
     out.nontrivial = nontrivial_pair(a, b)
@@ -460,7 +506,7 @@ def body_pipeline(data) -> Outcome:
     eff = []
     for _, _, _, src, req, reduced in edges:
         s = {"k": "array", "a": [src]} if (reduced and src["k"] != "noannotation") else src
-        eff.append((s, req))
+        eff.append((canon(s), canon(req)))
     compat = [ref(s, r) for s, r in eff]
     explicit_bad = [i for i, ok in enumerate(compat) if not ok]
     want_ok = (not validate) or not explicit_bad
@@ -539,7 +585,7 @@ def _annot(sub):
 
 def _union(sub):
     return st.builds(
-        lambda xs, bar: {"k": "union", "a": xs, "bar": bar}, st.lists(sub, min_size=2, max_size=3), st.booleans()
+        lambda xs, bar: {"k": "union", "a": xs, "bar": bar}, st.lists(sub, min_size=2, max_size=3, unique_by=key), st.booleans()
     )
 
 
